@@ -395,3 +395,194 @@ OBLIGATIONS = _obs()
 ASSUMPTIONS = ['symdf contract (vp/doubles/symdf.py), checked against real pandas by the conformance pass',
                'epsilon = 0 in K1; fuzzy arithmetic is K2 (direct z3)']
 OUTSIDE = ['to_frame() (constructs a real DataFrame)', 'real pandas dtype zoo beyond int64/float64/bool/object']
+
+
+# ---- K2: fuzzy arithmetic, by direct translation of the current source to z3 -------------------------------------
+def _z3_value(term, env):
+    import z3
+    sub = [(k, v) for k, v in env]
+    return z3.simplify(z3.substitute(term, *sub))
+
+
+def _spec_gt(a, b, eps, absb):
+    """documented: a >~ b  iff  a >= b, or a >= b - |b|.eps"""
+    import z3
+    return z3.Or(a >= b, a >= b - absb * eps)
+
+
+def _spec_lt(a, b, eps, absb):
+    import z3
+    return z3.Or(a <= b, a <= b + absb * eps)
+
+
+def replay_fuzzy(fname, a, b, eps):
+    """concrete replay with exact rationals: real function vs documented formula (True = agrees)"""
+    from fractions import Fraction
+    a, b, eps = Fraction(a), Fraction(b), Fraction(eps)
+    fn = getattr(base, fname, None) or getattr(pc, fname)
+    got = bool(fn(a, b, eps))
+    if 'gt' in fname or 'greater' in fname:
+        want = a >= b or a >= b - abs(b) * eps
+    else:
+        want = a <= b or a <= b + abs(b) * eps
+    return got == want
+
+
+def replay_fuzzy_fp(what, a, b, eps):
+    """concrete replay in IEEE doubles (True = the lemma holds for these values)"""
+    a, b, eps = float(a), float(b), float(eps)
+    if what == 'eps0_gt':
+        return bool(base.fuzzy_greater_than(a, b, 0.0)) == (a >= b)
+    if what == 'eps0_lt':
+        return bool(base.fuzzy_less_than(a, b, 0.0)) == (a <= b)
+    if what == 'zero_gt':
+        return bool(base.fuzzy_greater_than(a, 0.0, eps)) == (a >= 0.0)
+    if what == 'zero_lt':
+        return bool(base.fuzzy_less_than(a, 0.0, eps)) == (a <= 0.0)
+    if what == 'down':
+        return base.fuzz_down(b, eps) <= b
+    if what == 'up':
+        return base.fuzz_up(b, eps) >= b
+    raise ValueError(what)
+
+
+def k2_fuzzy_real():
+    import random
+    from fractions import Fraction
+    import z3
+    from vp.engine_z3 import PySym, Queries, Untranslatable
+    import os
+    out = {'queries': 0, 'detail': []}
+    try:
+        S = PySym([base, pc], 'real')
+        a, b, eps = z3.Reals('a b eps')
+        absb = z3.If(b >= 0, b, -b)
+        terms = {
+            'fuzzy_greater_than': (S.call('fuzzy_greater_than', [a, b, eps]), _spec_gt(a, b, eps, absb)),
+            'fuzzy_less_than': (S.call('fuzzy_less_than', [a, b, eps]), _spec_lt(a, b, eps, absb)),
+            'df_fuzzy_gt': (S.call('df_fuzzy_gt', [a, b, eps]), _spec_gt(a, b, eps, absb)),
+            'df_fuzzy_lt': (S.call('df_fuzzy_lt', [a, b, eps]), _spec_lt(a, b, eps, absb)),
+        }
+    except Untranslatable as e:
+        return {'status': 'inconclusive', 'message': 'source no longer translatable: %s' % e}
+    # translator validation: seeded triples through the real functions and through the encoding
+    rnd = random.Random(int(os.environ.get('VERIF_SEED', '0')))
+    for name, (impl, spec) in terms.items():
+        fn = getattr(base, name, None) or getattr(pc, name)
+        for _ in range(50):
+            va = Fraction(rnd.randint(-40, 40), rnd.choice([1, 2, 3, 7]))
+            vb = rnd.choice([Fraction(0), va, va * Fraction(99, 100), Fraction(rnd.randint(-40, 40), rnd.choice([1, 3]))])
+            ve = rnd.choice([Fraction(0), Fraction(1, 100), Fraction(1, 2), Fraction(rnd.randint(0, 99), 100)])
+            enc = _z3_value(impl, [(a, z3.RealVal(str(va))), (b, z3.RealVal(str(vb))), (eps, z3.RealVal(str(ve)))])
+            if z3.is_true(enc) != bool(fn(va, vb, ve)):
+                return {'status': 'harness_error', 'message': 'encoding of %s disagrees with the real function at '
+                        '%s %s %s' % (name, va, vb, ve)}
+    q = Queries()
+    r0, _ = q.check('assumptions satisfiable', eps >= 0, eps < 1, expect='sat')
+    out['reachable'] = (r0 == 'sat')
+    status = 'discharged'
+    for name, (impl, spec) in terms.items():
+        r, m = q.check('%s == documented formula, all reals, 0 <= eps < 1' % name, eps >= 0, eps < 1, impl != spec)
+        if r == 'sat':
+            vals = [m.eval(x, model_completion=True) for x in (a, b, eps)]
+            fr = ["'%s'" % v.as_fraction() for v in vals]
+            out.update(status='counterexample', replay_fn='replay_fuzzy',
+                       call="replay_fuzzy(%r, %s, %s, %s)" % (name, fr[0], fr[1], fr[2]))
+            status = 'counterexample'
+            break
+        if r != 'unsat':
+            status = 'inconclusive'
+            out['message'] = 'solver returned %s for %s' % (r, name)
+    out['status'] = out.get('status', status) if status != 'discharged' else 'discharged'
+    if status == 'inconclusive':
+        out['status'] = 'inconclusive'
+    out['queries'] = len(q.log)
+    out['paths'] = len(q.log)
+    out['cpu_s'] = round(q.total, 3)
+    out['detail'] = q.log
+    out['functions'] = sorted(S.entered)
+    return out
+
+
+def k2_fuzzy_fp():
+    import z3
+    from vp.engine_z3 import PySym, Queries, Untranslatable
+    eps_values = P.get('eps', [0.01, 0.5])
+    cap = P.get('cap_s', 60)
+    out = {}
+    try:
+        F = PySym([base, pc], 'fp')
+        fa, fb = z3.FP('a', z3.Float64()), z3.FP('b', z3.Float64())
+        zero = z3.FPVal(0.0, z3.Float64())
+        gt0 = F.call('fuzzy_greater_than', [fa, fb, zero])
+        lt0 = F.call('fuzzy_less_than', [fa, fb, zero])
+    except Untranslatable as e:
+        return {'status': 'inconclusive', 'message': 'source no longer translatable: %s' % e}
+
+    def fin(x):
+        return z3.Not(z3.Or(z3.fpIsNaN(x), z3.fpIsInf(x)))
+    q = Queries(timeout_ms=int(cap * 1000))
+    r0, _ = q.check('assumptions satisfiable', fin(fa), fin(fb), expect='sat')
+    out['reachable'] = (r0 == 'sat')
+    obligations = [('eps0_gt', 'eps = 0: fuzzy_greater_than(a,b,0) == (a >= b), all finite doubles',
+                    [fin(fa), fin(fb), gt0 != z3.fpGEQ(fa, fb)], 0.0),
+                   ('eps0_lt', 'eps = 0: fuzzy_less_than(a,b,0) == (a <= b), all finite doubles',
+                    [fin(fa), fin(fb), lt0 != z3.fpLEQ(fa, fb)], 0.0)]
+    for e in eps_values:
+        ev = z3.FPVal(e, z3.Float64())
+        obligations.append(('zero_gt', 'bound 0 is never fuzzy (min), eps=%s' % e,
+                            [fin(fa), F.call('fuzzy_greater_than', [fa, zero, ev]) != z3.fpGEQ(fa, zero)], e))
+        obligations.append(('zero_lt', 'bound 0 is never fuzzy (max), eps=%s' % e,
+                            [fin(fa), F.call('fuzzy_less_than', [fa, zero, ev]) != z3.fpLEQ(fa, zero)], e))
+        obligations.append(('down', 'fuzz_down(b) <= b, all finite doubles, eps=%s' % e,
+                            [fin(fb), z3.Not(z3.fpLEQ(F.call('fuzz_down', [fb, ev]), fb))], e))
+        obligations.append(('up', 'fuzz_up(b) >= b, all finite doubles, eps=%s' % e,
+                            [fin(fb), z3.Not(z3.fpGEQ(F.call('fuzz_up', [fb, ev]), fb))], e))
+    status = 'discharged'
+    for what, name, cons, e in obligations:
+        r, m = q.check(name, *cons)
+        if r == 'sat':
+            def fv(x):
+                return _fp_to_float(m.eval(x, model_completion=True))
+            out.update(status='counterexample', replay_fn='replay_fuzzy_fp',
+                       call='replay_fuzzy_fp(%r, %s, %s, %r)' % (what, fv(fa), fv(fb), e))
+            status = 'counterexample'
+            break
+        if r != 'unsat':
+            status = 'inconclusive'
+            out['message'] = 'solver returned %s for: %s' % (r, name)
+    out['status'] = status
+    out['queries'] = len(q.log)
+    out['paths'] = len(q.log)
+    out['cpu_s'] = round(q.total, 3)
+    out['detail'] = q.log
+    out['functions'] = sorted(F.entered)
+    return out
+
+
+def _fp_to_float(v):
+    import struct
+    import z3
+    if z3.is_fp_value(v):
+        if v.isNaN():
+            return 'float("nan")'
+        if v.isInf():
+            return 'float("-inf")' if v.isNegative() else 'float("inf")'
+        sign = 1 if v.sign() else 0
+        bits = (sign << 63) | (v.exponent_as_long(biased=True) << 52) | v.significand_as_long()
+        return repr(struct.unpack('>d', struct.pack('>Q', bits))[0])
+    return '0.0'
+
+
+OBLIGATIONS += [
+    Ob('K2', 'k2_fuzzy_real', 'fuzzy_greater_than / fuzzy_less_than / df_fuzzy_gt / df_fuzzy_lt equal the documented '
+       'formula (a >= b or a >= b - |b|.eps, dually) for ALL real a, b and 0 <= eps < 1',
+       'exact real arithmetic (floats abstracted as reals; the FP lemmas below justify it at the boundaries)',
+       engine='z3', timeout=120, twin=False),
+    Ob('K2', 'k2_fuzzy_fp', 'IEEE-754 double: eps = 0 is identical to the exact comparison; a bound of 0 is never '
+       'fuzzy; fuzz_down(b) <= b <= fuzz_up(b)', 'all finite doubles; eps in {0, 0.5}', engine='z3',
+       param={'eps': [0.5], 'cap_s': 60}, timeout=600, twin=False),
+    Ob('K2', 'k2_fuzzy_fp', 'IEEE-754 double: eps = 0 is identical to the exact comparison; a bound of 0 is never '
+       'fuzzy; fuzz_down(b) <= b <= fuzz_up(b)', 'all finite doubles; eps in {0, 0.01, 0.5}', engine='z3',
+       param={'eps': [0.01, 0.5], 'cap_s': 300}, timeout=3000, twin=False, tier='thorough'),
+]
